@@ -14,6 +14,9 @@ def property_expr(prog: Program, cls: ClassInfo, name: str) -> ast.AST | None:
             if not m.is_property:
                 return None
             stmts = [s for s in m.node.body if not (isinstance(s, ast.Expr) and isinstance(s.value, ast.Constant))]
+            # a leading `if <no value available>: return None` guard does not change the value when there is one
+            stmts = [s for s in stmts if not (isinstance(s, ast.If) and not s.orelse and len(s.body) == 1 and isinstance(s.body[0], ast.Return)
+                                              and (s.body[0].value is None or (isinstance(s.body[0].value, ast.Constant) and s.body[0].value.value is None)))]
             if len(stmts) == 1 and isinstance(stmts[0], ast.Return) and stmts[0].value is not None:
                 return stmts[0].value
             return None
